@@ -139,6 +139,11 @@ func ConvertibleTo(x, y reflect.Type) bool {
 		}
 	}
 
+	// x is a slice, y is an array type, and the slice and array have the same element types.
+	if xk == reflect.Slice && yk == reflect.Array && y.Elem() == x.Elem() {
+		return true
+	}
+
 	// If y is an interface type, x must implement y.
 	if yk == reflect.Interface {
 		return Implements(x, y)
